@@ -166,9 +166,9 @@ struct multi_alg
     static chk run(world<T>& w, std::vector<std::size_t> const& calls, chk const& c, CB cb)
     {
         if (w.dist)
-            return hep::multi_channel(hep::make_multi_channel_integrand<T>(w.f, w.d, w.m, w.d, w.C,
+            return hep::multi_channel(hep::make_multi_channel_integrand<T>(w.f, w.d, w.m, static_cast<std::size_t>(w.h.get("md", static_cast<long>(w.d))), w.C,
                 hep::make_dist_params<T>(2, T(0.0), T(1.0), w.name())), calls, c, cb);
-        return hep::multi_channel(hep::make_multi_channel_integrand<T>(w.f, w.d, w.m, w.d, w.C), calls, c, cb);
+        return hep::multi_channel(hep::make_multi_channel_integrand<T>(w.f, w.d, w.m, static_cast<std::size_t>(w.h.get("md", static_cast<long>(w.d))), w.C), calls, c, cb);
     }
     static chk load(std::istream& in) { return hep::make_multi_channel_chkpt<T, E>(in); }
     static std::size_t numbers_per_call(world<T>& w) { return w.d + 1; }
